@@ -167,6 +167,31 @@ example : stringOfBytes [0xED, 0xA0, 0x80] = .error .valueError := by rfl -- sur
 example : stringOfBytes [0xF4, 0x90, 0x80, 0x80] = .error .valueError := by rfl -- > U+10FFFF
 example : stringOfBytes [0xE2, 0x82] = .error .valueError := by rfl      -- truncated
 
+/-- round 3: `string()` of bytes is injective — no two byte strings are read as the same text.  What a decoder that
+treats some octets as something other than content breaks (a signature-aware codec maps `EF BB BF 69` and `69` to
+the same text; so do a stripping, a NUL-cutting or a normalising one). -/
+theorem string_of_bytes_injective (b₁ b₂ : Bytes) (s : Text)
+    (h₁ : stringOfBytes b₁ = .ok s) (h₂ : stringOfBytes b₂ = .ok s) : b₁ = b₂ := by
+  have e₁ := (bad_utf8_is_error b₁ s h₁).1
+  have e₂ := (bad_utf8_is_error b₂ s h₂).1
+  rw [e₁] at e₂
+  injection e₂
+
+/-- the octets `EF BB BF` are the character U+FEFF wherever they stand, the first position included: text that
+begins with U+FEFF keeps it through `string(bytes(s))` (instance of `string_bytes_roundtrip`) -/
+theorem string_bytes_keeps_leading_feff (s : Text) (h : ∀ c ∈ s, isScalar c = true) :
+    (bytesOfString (0xFEFF :: s) >>= stringOfBytes) = .ok (0xFEFF :: s) :=
+  string_bytes_roundtrip (0xFEFF :: s) (by
+    intro c hc
+    cases hc with
+    | head => rfl
+    | tail _ hc => exact h c hc)
+
+example : stringOfBytes [0xEF, 0xBB, 0xBF] = .ok [0xFEFF] := by rfl                   -- a signature alone is one character
+example : stringOfBytes [0xEF, 0xBB, 0xBF, 0x69, 0x64] = .ok [0xFEFF, 0x69, 0x64] := by rfl
+example : stringOfBytes [0x61, 0x00, 0x0D, 0x0A, 0x20] = .ok [0x61, 0, 13, 10, 32] := by rfl   -- NUL, CR LF, trailing blank kept
+example : stringOfBytes [0x65, 0xCC, 0x81] = .ok [0x65, 0x301] := by rfl              -- not composed to U+00E9
+
 /-! #### timestamp ↔ string -/
 
 /-- `timestamp(string(t)) == t` for every whole-second timestamp in years 0001..9999, with any
